@@ -572,6 +572,8 @@ def check(ctx):
     info = vmopsgen.generate()
     ctx.stats["translator"] = {k: info[k] for k in ("fixes", "opcodes", "classes", "changed")}
     proofs_ok, out = common.proof_side(ctx, PROPS_MODULE, PROPS_FILE)
+    # cross-model links: the value layer agrees with Lang.Value (C03) and the C10 kind codes (notes/XL-design.md)
+    common.audit_more(ctx, common.XLINKS_MODULE, common.XLINKS_FILE, out, "VMOps and Lang.Value / the kind-code tables no longer agree")
     if ctx.tier == "thorough" and proofs_ok:
         common.leanchecker(ctx, PROPS_MODULE)
     if not ctx.stats.get("lake_build_ok"):
